@@ -91,13 +91,13 @@ func c01Judge(pool *sb.Pool, rec *sb.Rec, c c01Case) *failure {
 	}
 	switch rep.Outcome {
 	case sb.OK, sb.Uncaught:
-		rec.Label(label, "")
+		rec.Label(label, fmt.Sprintf("%q", clip(c.Src, 300)))
 		return nil
 	case sb.ParseError:
 		if rep.Pos {
-			rec.Label("parse_error.pos", "")
+			rec.Label("parse_error.pos", fmt.Sprintf("%q -> %s", clip(c.Src, 300), clip(rep.Msg, 160)))
 		} else {
-			rec.Label("parse_error.nopos", "")
+			rec.Label("parse_error.nopos", fmt.Sprintf("%q -> %s", clip(c.Src, 300), clip(rep.Msg, 160)))
 		}
 		return nil
 	case sb.Infra:
@@ -350,7 +350,7 @@ func c01Snippets(cfg sb.Config, rec *sb.Rec, pool *sb.Pool) {
 					return
 				}
 				rec.NonTrivial(fmt.Sprint(tmpl), s)
-				rec.Label("snippet."+kind, "")
+				rec.Label("snippet."+kind, fmt.Sprintf("%q", clip(s, 300)))
 				c := c01Case{Src: s, Tmpl: tmpl, Why: fmt.Sprintf("%s of construct snippet %d", kind, si)}
 				if fl := c01Judge(pool, rec, c); fl != nil {
 					rec.Fail(fl.Key, fl.Detail, fl.Case)
@@ -409,7 +409,7 @@ func c01Corpus(cfg sb.Config, rec *sb.Rec, pool *sb.Pool, dl time.Time) bool {
 				return
 			}
 			rec.NonTrivial(fmt.Sprint(tmpl), s)
-			rec.Label("corpus."+kind, "")
+			rec.Label("corpus."+kind, fmt.Sprintf("%s: %q", rel, clip(s[max(0, len(s)-200):], 200)))
 			c := c01Case{Src: s, Tmpl: tmpl, Why: fmt.Sprintf("%s of %s", kind, rel)}
 			if fl := c01Judge(pool, rec, c); fl != nil {
 				rec.Fail(fl.Key, fl.Detail, fl.Case)
